@@ -377,28 +377,6 @@ def step(ctx, h, ref, op, tag):
                     err = check_event(before, after, h.items[0])
                     if err:
                         bad("items-event", err)
-                if len(h.obs) != 1:
-                    bad("observer-count", "%d observer events" % len(h.obs))
-                else:
-                    ctx.outcome("observer-event")
-                    orm, oad = h.obs[0]
-                    # documented merge: changed folded into removed/added
-                    exp_rm = {k: v for k, v in before.items()
-                              if k not in after or after[k] != v}
-                    exp_ad = {k: v for k, v in after.items()
-                              if k not in before or before[k] != v}
-                    # equal-valued "changed" keys may legitimately appear
-                    # in both parts with equal old/new values
-                    for k in list(orm):
-                        if k in oad and k in before and k in after and \
-                                before[k] == after[k] and orm[k] == before[k] \
-                                and oad[k] == after[k]:
-                            exp_rm[k] = before[k]
-                            exp_ad[k] = after[k]
-                    if orm != exp_rm or oad != exp_ad:
-                        bad("observer-event", "DictChangeEvent removed=%r "
-                            "added=%r, expected removed=%r added=%r"
-                            % (orm, oad, exp_rm, exp_ad))
     else:
         if not evs:
             ctx.outcome("silent-noop")
@@ -410,6 +388,26 @@ def step(ctx, h, ref, op, tag):
                 if not (e[0] or e[1] or e[2]):
                     bad("empty-event", "nothing changed but an all-empty %s "
                         "event was emitted" % logname)
+    if mode == "owner":
+        # the observer's DictChangeEvent is the documented merge of the raw
+        # notification: changed keys folded into removed (old) / added (new)
+        if len(h.obs) != len(evs) or len(h.items) != len(evs):
+            bad("observer-count", "%d raw, %d _items, %d observer events"
+                % (len(evs), len(h.items), len(h.obs)))
+        else:
+            for (rm, ad, ch), (orm, oad), it in zip(evs, h.obs, h.items):
+                ctx.outcome("observer-event")
+                exp_rm = dict(rm)
+                exp_rm.update(ch)
+                exp_ad = dict(ad)
+                exp_ad.update((k, after[k]) for k in ch if k in after)
+                if orm != exp_rm or oad != exp_ad:
+                    bad("observer-event", "DictChangeEvent removed=%r "
+                        "added=%r is not the merge of removed=%r added=%r "
+                        "changed=%r" % (orm, oad, rm, ad, ch))
+                if it != (rm, ad, ch):
+                    bad("items-event", "_items event %r differs from the raw"
+                        " notification %r" % (it, (rm, ad, ch)))
     return good
 
 
@@ -435,6 +433,7 @@ def ops_for(mode, tier, light=False):
         ops.append(("pop", k))
         ops.append(("pop", k, "dflt"))
         ops.append(("pop", k, None))
+        ops.append(("pop", k, "a"))
         ops.append(("setdefault", k))
         for v in avals:
             ops.append(("setdefault", k, v))
